@@ -1,7 +1,7 @@
 (* C10 -- reference-counted and pooled objects are released exactly once, never early.
    Property theorems only: each is closed by [exact] of a lemma proved in Conc/. *)
 From Coq Require Import List Arith Bool NArith.
-From Muscle Require Import Gen.Consts Conc.Pool Conc.PoolProofs Conc.RefCnt Conc.RefInv Conc.RefActs Conc.RefProofs Conc.RefFork Conc.RefPool.
+From Muscle Require Import Gen.Consts Conc.Pool Conc.PoolProofs Conc.RefCnt Conc.RefInv Conc.RefActs Conc.RefProofs Conc.RefFork Conc.RefPool Conc.RefMore.
 Import ListNotations.
 
 (* ---- the counting protocol: any number of threads, any programs, every reachable state ---- *)
@@ -70,6 +70,19 @@ Theorem C10_slab_created_only_when_exhausted : forall N hlen p p' o sn, 1 <= N -
   pool_obtain N hlen p = (p', o, Some sn) -> p_cur p = 0.
 Proof. exact obtain_creates_only_when_exhausted. Qed.
 Print Assumptions C10_slab_created_only_when_exhausted.
+
+(* once the count has reached zero, exactly one thread is carrying out the release *)
+Theorem C10_release_in_progress : forall N K s0 s o, inv1 K s0 -> progs_ok s0 -> reachable N K s0 s ->
+  is_releasing (hobj s o) = true ->
+  exists t n, t < length (s_thr s) /\ In (ARel o n) (t_todo (thr s t)) /\
+              forall u m, u < length (s_thr s) -> In (ARel o m) (t_todo (thr s u)) -> u = t.
+Proof. exact release_in_progress. Qed.
+Print Assumptions C10_release_in_progress.
+
+Theorem C10_releasing_is_unreferenced : forall N K s0 s o, inv1 K s0 -> progs_ok s0 -> reachable N K s0 s ->
+  is_releasing (hobj s o) = true -> o_cnt (hobj s o) = 0 /\ units o s = 0 /\ debts o s = 0.
+Proof. exact releasing_is_unreferenced. Qed.
+Print Assumptions C10_releasing_is_unreferenced.
 
 (* ---- heap states and pool bookkeeping together, in every reachable state ---- *)
 
